@@ -867,6 +867,75 @@ theorem isBatch_iff (cfg : Config) (inp : Input) :
   | none => simp
   | some n => simp
 
+/-! ### cancellation: handlers may answer differently, the dispatcher does the same -/
+
+/-- two environments that differ at most in what the handlers return -/
+def SameBinding (e1 e2 : Env) : Prop := e1.decode = e2.decode ∧ e1.zero = e2.zero
+
+theorem bindPositional_congr {e1 e2 : Env} (h : SameBinding e1 e2) (ps : List Param) (vs : List Json) :
+    bindPositional e1 ps vs = bindPositional e2 ps vs := by
+  induction ps generalizing vs with
+  | nil => cases vs <;> rfl
+  | cons p ps ih =>
+    cases vs with
+    | nil => simp only [bindPositional, ih, h.2]
+    | cons v vs => simp only [bindPositional, ih, h.1]
+
+theorem bindNamed_congr {e1 e2 : Env} (h : SameBinding e1 e2) (ps : List Param) (m : List (String × Json)) :
+    bindNamed e1 ps m = bindNamed e2 ps m := by
+  induction ps generalizing m with
+  | nil => rfl
+  | cons p ps ih => simp only [bindNamed, ih, h.1, h.2]
+
+theorem stageOf_congr {e1 e2 : Env} (h : SameBinding e1 e2) (tbl : Table) (j : Json) :
+    stageOf e1 tbl j = stageOf e2 tbl j := by
+  have hb : ∀ params m, buildArguments e1 params m = buildArguments e2 params m := by
+    intro params m
+    simp only [buildArguments, bindPositional_congr h, bindNamed_congr h, h.2]
+  simp only [stageOf, hb]
+
+/-- whether a request value is answered, with which id, and which handler call it causes does not
+depend on what handlers return -/
+theorem handleEntry_congr {e1 e2 : Env} (h : SameBinding e1 e2) (cfg : Config) (tbl : Table) (c : Int) (j : Json) :
+    (handleEntry cfg e1 tbl c j).1.map (·.id) = (handleEntry cfg e2 tbl c j).1.map (·.id) ∧
+    (handleEntry cfg e1 tbl c j).2 = (handleEntry cfg e2 tbl c j).2 := by
+  rw [handleEntry_eq, handleEntry_eq, stageOf_congr h]
+  refine ⟨?_, by rw [entrySpec_log, entrySpec_log]⟩
+  cases h1 : (entrySpec cfg e1 c (stageOf e2 tbl j)).1 with
+  | none =>
+    have hn := (entrySpec_noReply cfg e1 c _).mp h1
+    rw [(entrySpec_noReply cfg e2 c _).mpr hn]
+  | some r1 =>
+    cases h2 : (entrySpec cfg e2 c (stageOf e2 tbl j)).1 with
+    | none =>
+      have hn := (entrySpec_noReply cfg e2 c _).mp h2
+      rw [(entrySpec_noReply cfg e1 c _).mpr hn] at h1
+      cases h1
+    | some r2 =>
+      simp only [Option.map_some]
+      rw [entrySpec_id cfg e1 c _ r1 h1, entrySpec_id cfg e2 c _ r2 h2]
+
+theorem batchResponses_ids_congr {e1 e2 : Env} (h : SameBinding e1 e2) (cfg : Config) (tbl : Table) (xs : List Json) :
+    (batchResponses cfg e1 tbl xs).map (·.id) = (batchResponses cfg e2 tbl xs).map (·.id) ∧
+    batchLog cfg e1 tbl xs = batchLog cfg e2 tbl xs := by
+  induction xs with
+  | nil => exact ⟨rfl, rfl⟩
+  | cons x xs ih =>
+    obtain ⟨hid, hlog⟩ := handleEntry_congr h cfg tbl InvalidRequest x
+    obtain ⟨ih1, ih2⟩ := ih
+    simp only [batchResponses, batchEntries, batchLog, List.map_cons, List.filterMap_cons, List.flatMap_cons] at ih1 ih2 ⊢
+    refine ⟨?_, by rw [hlog, ih2]⟩
+    cases h1 : (handleEntry cfg e1 tbl InvalidRequest x).1 <;>
+      cases h2 : (handleEntry cfg e2 tbl InvalidRequest x).1 <;>
+      simp [h1, h2] at hid ⊢
+    · simpa [List.filterMap_map] using ih1
+    · exact ⟨hid, by simpa [List.filterMap_map] using ih1⟩
+
+theorem batchResponses_append (cfg : Config) (env : Env) (tbl : Table) (a b : List Json) :
+    batchResponses cfg env tbl (a ++ b) = batchResponses cfg env tbl a ++ batchResponses cfg env tbl b ∧
+    batchLog cfg env tbl (a ++ b) = batchLog cfg env tbl a ++ batchLog cfg env tbl b := by
+  simp [batchResponses, batchEntries, batchLog]
+
 /-! ### transports -/
 
 theorem ws_pairing (cfg : Config) (env : Env) (tbl : Table) (msgs : List Input) :
